@@ -131,16 +131,22 @@ func SuccessReturn() Effect {
 	}}
 }
 
-// ReturnsBool: a return whose idx-th result may equal want.
+// ReturnsBool: a return whose idx-th result may equal want. Returning the check's own result (or its negation) in
+// the polarity that makes the result `want` exactly when the check passes is the gate itself (tail position).
 func ReturnsBool(idx int, want bool) Effect {
 	return Effect{Desc: fmt.Sprintf("return %v", want), Sites: func(g *gateRun) []effSite {
 		return g.returnSites(func(sig *types.Signature) int { return idx }, func(v ssa.Value, at *ssa.BasicBlock) bool {
 			if b, ok := ConstBool(v); ok {
 				return b == want
 			}
-			if g.isCheckValue(v) { // the check result itself returned = tail gate
-				g.tails++
-				return false
+			atom, neg := condAtom(v)
+			if g.isCheckValue(atom) && (g.g.Check.Pass == IsTrue || g.g.Check.Pass == IsFalse) {
+				passVal := g.g.Check.Pass == IsTrue
+				// returned = atom xor neg ; equals want iff atom == (want xor neg)
+				if (want != neg) == passVal {
+					g.tails++
+					return false
+				}
 			}
 			return true
 		})
@@ -234,6 +240,14 @@ func (p *Prog) errStateAt(v ssa.Value, at *ssa.BasicBlock, depth int) int {
 	case *ssa.Call:
 		if p.callAlwaysNonNilErr(x.Common(), depth) {
 			return stNonNil
+		}
+		// errors.Join(a, b, ...) is non-nil if any argument is
+		if f := x.Common().StaticCallee(); f != nil && f.Pkg != nil && f.Pkg.Pkg.Path() == "errors" && f.Name() == "Join" {
+			for _, el := range VariadicElems(x) {
+				if p.errStateAt(el, at, depth+1) == stNonNil {
+					return stNonNil
+				}
+			}
 		}
 	case *ssa.Extract:
 		if c, ok := x.Tuple.(*ssa.Call); ok {
